@@ -105,7 +105,30 @@ def _run(fn):
         return ('exc', type(e).__name__)
 
 
+def preferred_scenario(cfg) -> List[str]:
+    """PREFERRED_NAMES: a list in which two entries lead to the same variable is ambiguous and rejected at construction
+    (ValueError); any other list is accepted and recorded.  (Plain Python: no pandas involved.)"""
+    amap, pref = cfg['amap'], list(cfg['pref'])
+    M = type('Aliased', (AliasMixin, Base), {'ALIASES': dict(amap), 'PREFERRED_NAMES': list(pref)})
+    targets = [resolve(amap, p) for p in pref]
+    ambiguous = len(set(targets)) < len(targets)
+    if cfg.get('twin') == 'never_ambiguous':
+        ambiguous = False
+    r = _run(lambda: M(range(3)))
+    bad = []
+    if ambiguous and r != ('exc', 'ValueError'):
+        bad.append(f'PREFERRED_NAMES={pref} with ALIASES={amap} is ambiguous ({targets}) but construction gave {r[:2] if r[0] == "exc" else "a model"}')
+    if not ambiguous:
+        if r[0] != 'ret':
+            bad.append(f'PREFERRED_NAMES={pref} with ALIASES={amap} is unambiguous but construction raised {r[1]}')
+        elif list(M.PREFERRED_NAMES) != pref:
+            bad.append('the class-level PREFERRED_NAMES was altered by construction')
+    return bad
+
+
 def scenario(cfg, src, symbolic: bool) -> List[str]:
+    if cfg['op'] == 'preferred':
+        return preferred_scenario(cfg)
     amap, op, alias, n = cfg['amap'], cfg['op'], cfg['alias'], cfg['n']
     canon = resolve(amap, alias)
     bad: List[str] = []
@@ -287,6 +310,14 @@ def configs(tier: str):
             for op in ops:
                 for n in ((2 if op in ('slice_write', 'slice_read') else 3,) if tier == 'quick' else (1, 3, 4)):
                     out.append(cfg18(amap=amap, op=op, alias=alias, n=n))
+    # PREFERRED_NAMES: every list of up to three distinct names over variables and aliases
+    for amap in ({'I': 'A'}, {'I': 'A', 'J': 'A'}, {'I': 'A', 'J': 'I'}, {'I': 'A', 'J': 'A', 'K': 'X'}, {}):
+        pool = VARS + sorted(amap)
+        for k in (0, 1, 2, 3):
+            for pref in itertools.permutations(pool, k):
+                if k == 3 and tier == 'quick' and len(amap) > 2:
+                    continue
+                out.append(cfg18(amap=amap, op='preferred', alias=None, n=3, pref=list(pref)))
     # string labels that coincide with alias / variable names, and strict containers
     for amap in ({'I': 'A'}, {'I': 'A', 'J': 'I'}, {'I': 'B', 'K': 'X'}):
         for alias in sorted(amap):
@@ -299,14 +330,15 @@ def configs(tier: str):
 
 
 TWINS = [cfg18(amap={'I': 'A'}, op='attr_write', alias='I', twin='wrong_var'),
-         cfg18(amap={'I': 'J', 'J': 'B'}, op='label_write', alias='I', twin='wrong_var')]
+         cfg18(amap={'I': 'J', 'J': 'B'}, op='label_write', alias='I', twin='wrong_var'),
+         cfg18(amap={'I': 'A'}, op='preferred', alias=None, pref=['I', 'A'], twin='never_ambiguous')]
 
 
 def finding_key(cfg, cand) -> str:
     bad = cand['replay']['bad']
     if any('did not return' in b for b in bad):
         return 'self-map-hangs-constructor'
-    return f"amap={cfg['amap']},op={cfg['op']},alias={cfg['alias']}:{bad[0][:80] if bad else '?'}"
+    return f"amap={cfg['amap']},op={cfg['op']},alias={cfg['alias']}{',pref=' + str(cfg['pref']) if cfg.get('pref') is not None else ''}:{bad[0][:80] if bad else '?'}"
 
 
 def main() -> int:
@@ -319,7 +351,7 @@ def main() -> int:
         bounds={'alias_maps': f"all acyclic maps of up to {2 if tier == 'quick' else 3} alias names onto 3 variables / other aliases (many-to-one, chains, self-maps)",
                 'span_length': '2..3 (thorough 1, 3, 4) with symbolic integer labels', 'operands': 'value(s): any Float64; position: symbolic -n-1..n; labels / slice bounds: any integer',
                 'operations': OPS},
-        outside=['to_dataframe(use_aliases=...) and PREFERRED_NAMES (pandas): the whole last sentence of the property', 'cyclic alias maps',
+        outside=['to_dataframe(use_aliases=...) (pandas): the renaming of exported columns; the rejection of ambiguous PREFERRED_NAMES at construction IS checked', 'cyclic alias maps',
                  'operation sequences longer than one step (each operation starts from an arbitrary symbolic state, so a step result composes)'],
         key_fn=finding_key, explore=explore18,
     )
